@@ -90,6 +90,9 @@ pub fn replay(case: &serde_json::Value) -> bool {
     let mut setup = Setup::script("");
     setup.argv = vec!["yash".into(), "-i".into(), "-s".into()];
     setup.stdin = Some(script.as_bytes().to_vec());
+    if case["non_interactive"] == true {
+        setup = Setup::script(script);
+    }
     let r = vsh::run_once(&setup, &Default::default());
     println!("interactive script:\n{script}\nend={:?}\nstderr:\n{}", r.end, r.stderr);
     for t in r.all_trace() {
@@ -129,4 +132,95 @@ pub fn run(ctx: &Ctx) -> (u64, u64) {
         n.fetch_add(1, Relaxed);
     });
     (n.load(Relaxed), cmp.load(Relaxed))
+}
+
+// ------------------------------------------------------------------------------------------------
+// Part (d): "When a job is suspended, it becomes the current job, and the previous current job
+// becomes the previous job" (docs/src/interactive/job_control.md) — whichever way the shell learns
+// of the suspension: an asynchronous job that stops itself, or a *foreground* command that is
+// stopped and thereby becomes a job. Every history of up to N commands in a `set -m` shell.
+
+const DOPS: [&str; 6] = ["{ stopself; s 3; } &", "(stopself; s 4)", "{ stopself; stopself; s 5; } &", "kill -s KILL %1; wait %1", "kill -s KILL %2; wait %2", "bg %+"];
+
+fn dump_of(t: &str) -> (Option<usize>, Option<usize>, Vec<(usize, bool)>) {
+    // "jl TAG st=.. bang=.. cur=Some(0) prev=None |" + entries
+    let field = |name: &str| -> Option<usize> {
+        let i = t.find(&format!("{name}=Some("))?;
+        t[i + name.len() + 6..].split(')').next()?.parse().ok()
+    };
+    let jobs = t
+        .split('\x1e')
+        .skip(1)
+        .filter_map(|e| {
+            let f: Vec<&str> = e.split('\x1f').collect();
+            Some((f.first()?.parse().ok()?, f.get(2)?.contains("Stopped")))
+        })
+        .collect();
+    (field("cur"), field("prev"), jobs)
+}
+
+fn judge_d(ctx: &Ctx, hist: &[usize]) {
+    let mut script = String::from("set -m\njl init\n");
+    for (k, op) in hist.iter().enumerate() {
+        script.push_str(&format!("{}\njl {k}\n", DOPS[*op]));
+    }
+    script.push_str("kill -s KILL %1 %2 %3 %4 %5\ns 0\n");
+    let mut setup = Setup::script(&script);
+    setup.auto_continue = false;
+    let r = vsh::run_once(&setup, &Default::default());
+    let case = json!({"part": "c", "script": script, "non_interactive": true});
+    if r.panic.is_some() || matches!(r.end, End::Deadlock | End::Livelock) {
+        ctx.violation("c12d:end", &format!("{:?} {:?}", r.end, r.panic), case);
+        return;
+    }
+    let tr = r.all_trace();
+    let mut prev_dump: (Option<usize>, Option<usize>, Vec<(usize, bool)>) = (None, None, vec![]);
+    for k in 0..hist.len() {
+        let Some(t) = tr.iter().find(|t| t.starts_with(&format!("jl {k} "))) else { return };
+        let d = dump_of(t);
+        let newly: Vec<usize> = d.2.iter().filter(|(i, stopped)| *stopped && !prev_dump.2.iter().any(|(j, s)| j == i && *s)).map(|(i, _)| *i).collect();
+        // exactly one job has become suspended since the last dump (and the command was not one that
+        // chooses the current job itself)
+        if newly.len() == 1 && hist[k] <= 2 {
+            let j = newly[0];
+            let old_cur = prev_dump.0.filter(|c| d.2.iter().any(|(i, _)| i == c) && *c != j);
+            if d.0 != Some(j) || (old_cur.is_some() && d.1 != old_cur) {
+                ctx.violation(
+                    "c12d:newly-suspended-job-not-current",
+                    &format!("after {:?}: job {} has just been suspended, but the current job is {:?} and the previous job {:?} (before: current {:?})", hist[..=k].iter().map(|o| DOPS[*o]).collect::<Vec<_>>(), j + 1, d.0.map(|x| x + 1), d.1.map(|x| x + 1), prev_dump.0.map(|x| x + 1)),
+                    case,
+                );
+                return;
+            }
+        }
+        prev_dump = d;
+    }
+}
+
+/// Returns the number of histories.
+pub fn run_d(ctx: &Ctx) -> u64 {
+    let depth = ctx.tier.pick(4, 5);
+    let mut hists: Vec<Vec<usize>> = vec![];
+    let mut frontier: Vec<Vec<usize>> = vec![vec![]];
+    for _ in 0..depth {
+        let mut next = vec![];
+        for h in &frontier {
+            for op in 0..DOPS.len() {
+                if op <= 2 && h.iter().filter(|o| **o <= 2).count() >= 3 {
+                    continue;
+                }
+                let mut g = h.clone();
+                g.push(op);
+                next.push(g);
+            }
+        }
+        hists.extend(next.iter().cloned());
+        frontier = next;
+    }
+    let hists: Vec<Vec<usize>> = hists.into_iter().filter(|h| h.last().is_some_and(|o| *o <= 2)).collect();
+    hists.par_iter().for_each(|h| {
+        let _g = case_guard(format!("d {h:?}"));
+        judge_d(ctx, h);
+    });
+    hists.len() as u64
 }
